@@ -1,4 +1,731 @@
-import Cellml.Expr.Infer
+import Cellml.Expr.InferLemmas
+
+/-! # C04 — unit inference is sound
+
+    Model: `Infer.traverse reg Γ e` (units.py `UnitCalculator.traverse`): pint arithmetic on unit containers, carrying
+    magnitudes along. Specification: `Spec.specUnit reg Γ e` (Expr/Spec.lean): the CellML rules on SEMANTIC units
+    `(scale, root units)`, with no containers and no magnitudes. `sem reg u = Units.toRoot reg u` is the meaning of a
+    container, `≃₂` is equality of meaning (same positive real scale, same exponent of every root unit).
+    Every theorem is for ALL registries (unit families), ALL variable environments and ALL expressions (induction on
+    the expression, no depth bound). The tie to cellmlmanip is the correspondence check `harness/props/c04.py`. -/
+
+set_option linter.constructorNameAsVariable false
+set_option linter.unusedSimpArgs false
+
 namespace Cellml.Props.C04
-theorem placeholder : True := trivial
+open Units PMap Spec Infer
+
+/-! ## 1. the containers `traverse` builds mean what the rules say (all registries, all containers) -/
+
+theorem sem_product (reg : Registry) (a b : Container) : sem reg (mulC a b) ≃₂ Spec.mul (sem reg a) (sem reg b) :=
+  sem_mulC reg a b
+theorem sem_quotient (reg : Registry) (a b : Container) : sem reg (divC a b) ≃₂ Spec.div (sem reg a) (sem reg b) :=
+  sem_divC reg a b
+theorem sem_power (reg : Registry) (a : Container) (q : Rat) : sem reg (powC a q) ≃₂ Spec.pow q (sem reg a) :=
+  sem_powC reg a q
+theorem sem_dimensionless (reg : Registry) : sem reg [] ≃₂ Spec.one := sem_nil reg
+/-- the sum / piecewise check accepts exactly the pairs of equal scale and equal root units -/
+theorem sameUnits_iff_sem (reg : Registry) (a b : Container) : sameUnits reg a b = true ↔ sem reg a ≃₂ sem reg b :=
+  sameUnits_iff reg a b
+/-- the function-argument check accepts exactly the units of dimension zero -/
+theorem isDimless_iff_dims (reg : Registry) (u : Container) :
+    isDimless reg u = true ↔ dimsOfRoot reg (sem reg u).2 ≃ [] := isDimless_iff reg u
+
+/-! ## 2. soundness -/
+
+/-- `infer_sound`: whenever `traverse` returns a unit for an expression whose exponents are numeric (numeric leaves or
+    products of numeric leaves such as `-2`, `(-1)·0.5`; `SimpleExps`), the CellML rules assign the expression a unit
+    — so it is consistent — and the returned container denotes exactly that unit: same scale, same root units.
+    The hypothesis `SimpleExps e` is the property's "power with numeric exponent"; it excludes the known finding
+    `wrong-unit:composite-exponent`, and without it the statement is false
+    (`infer_sound_fails_for_composite_exponent`). -/
+theorem infer_sound (reg : Registry) (Γ : VarEnv) (e : E) :
+    SimpleExps e = true → ∀ r, traverse reg Γ e = .ok r →
+      ∃ su, specUnit reg Γ e = some su ∧ sem reg r.2 ≃₂ su := by
+  induction e with
+  | qty v u =>
+      intro _ r h; rw [traverse_qty] at h; cases h
+      exact ⟨_, rfl, Equiv₂.refl _⟩
+  | cf s u =>
+      intro _ r h; rw [traverse_cf] at h; cases h
+      exact ⟨_, rfl, Equiv₂.refl _⟩
+  | var i =>
+      intro _ r h; rw [traverse_var] at h
+      obtain ⟨vi, hvi, hu⟩ := varQ_ok Γ i r h
+      exact ⟨sem reg vi.unit, by simp [specUnit, hvi], by rw [hu]; exact Equiv₂.refl _⟩
+  | int n => intro _ r h; rw [traverse_int] at h; cases h; exact ⟨_, rfl, sem_nil reg⟩
+  | rat q => intro _ r h; rw [traverse_rat] at h; cases h; exact ⟨_, rfl, sem_nil reg⟩
+  | flt q => intro _ r h; rw [traverse_flt] at h; cases h; exact ⟨_, rfl, sem_nil reg⟩
+  | pi => intro _ r h; rw [traverse_pi] at h; cases h; exact ⟨_, rfl, sem_nil reg⟩
+  | e => intro _ r h; rw [traverse_e] at h; cases h; exact ⟨_, rfl, sem_nil reg⟩
+  | oo => intro _ r h; rw [traverse_oo] at h; cases h
+  | nan => intro _ r h; rw [traverse_nan] at h; cases h
+  | undef => intro _ r h; rw [traverse_undef] at h; cases h
+  | tt => intro _ r h; rw [traverse_tt] at h; cases h
+  | ff => intro _ r h; rw [traverse_ff] at h; cases h
+  | other n => intro _ r h; rw [traverse_other] at h; cases h
+  | rel rl a b _ _ =>
+      intro _ r h; rw [traverse_rel] at h
+      obtain ⟨_, _, h⟩ := (bind_ok _ _ _).mp h
+      obtain ⟨_, _, h⟩ := (bind_ok _ _ _).mp h
+      cases h
+  | and a b _ _ =>
+      intro _ r h; rw [traverse_and] at h
+      obtain ⟨_, _, h⟩ := (bind_ok _ _ _).mp h
+      obtain ⟨_, _, h⟩ := (bind_ok _ _ _).mp h
+      cases h
+  | or a b _ _ =>
+      intro _ r h; rw [traverse_or] at h
+      obtain ⟨_, _, h⟩ := (bind_ok _ _ _).mp h
+      obtain ⟨_, _, h⟩ := (bind_ok _ _ _).mp h
+      cases h
+  | not a _ =>
+      intro _ r h; rw [traverse_not] at h
+      obtain ⟨_, _, h⟩ := (bind_ok _ _ _).mp h
+      cases h
+  | fnN f a b _ _ =>
+      intro _ r h
+      obtain ⟨err, he⟩ := traverse_fnN reg Γ f a b
+      rw [he] at h; cases h
+  | mul a b iha ihb =>
+      intro hs r h
+      simp only [SimpleExps, Bool.and_eq_true] at hs
+      rw [traverse_mul] at h
+      obtain ⟨qa, ha, h⟩ := (bind_ok _ _ _).mp h
+      obtain ⟨qb, hb, h⟩ := (bind_ok _ _ _).mp h
+      obtain ⟨sa, hsa, ea⟩ := iha hs.1 qa ha
+      obtain ⟨sb, hsb, eb⟩ := ihb hs.2 qb hb
+      cases (pure_ok _ _).mp h
+      exact ⟨Spec.mul sa sb, by simp [specUnit, hsa, hsb], (sem_mulC reg _ _).trans (mul_congr ea eb)⟩
+  | add a b iha ihb =>
+      intro hs r h
+      simp only [SimpleExps, Bool.and_eq_true] at hs
+      obtain ⟨ha, qb, hb, hsame⟩ := traverse_add_ok reg Γ a b r h
+      obtain ⟨sa, hsa, ea⟩ := iha hs.1 r ha
+      obtain ⟨sb, hsb, eb⟩ := ihb hs.2 qb hb
+      have hab : sa ≃₂ sb := ea.symm.trans (((sameUnits_iff reg _ _).mp hsame).trans eb)
+      exact ⟨sa, by simp [specUnit, hsa, hsb, (same_iff sa sb).mpr hab], ea⟩
+  | abs a iha =>
+      intro hs r h
+      rw [traverse_abs] at h
+      obtain ⟨qa, ha, h⟩ := (bind_ok _ _ _).mp h
+      cases (pure_ok _ _).mp h
+      exact iha hs qa ha
+  | floor a iha =>
+      intro hs r h
+      rw [traverse_floor] at h
+      obtain ⟨qa, ha, h⟩ := (bind_ok _ _ _).mp h
+      obtain ⟨m, _, h⟩ := (bind_ok _ _ _).mp h
+      cases (pure_ok _ _).mp h
+      exact iha hs qa ha
+  | ceil a iha =>
+      intro hs r h
+      rw [traverse_ceil] at h
+      obtain ⟨qa, ha, h⟩ := (bind_ok _ _ _).mp h
+      obtain ⟨m, _, h⟩ := (bind_ok _ _ _).mp h
+      cases (pure_ok _ _).mp h
+      exact iha hs qa ha
+  | fn1 f a iha =>
+      intro hs r h
+      rw [traverse_fn1] at h
+      obtain ⟨qa, ha, h⟩ := (bind_ok _ _ _).mp h
+      obtain ⟨sa, hsa, ea⟩ := iha hs qa ha
+      obtain ⟨hd, hr⟩ := fn1Step_ok reg f qa r h
+      have hz : dimZero reg sa = true := by
+        rw [← dimZero_congr reg ea, ← isDimless_eq_dimZero]; exact hd
+      exact ⟨Spec.one, by simp [specUnit, hsa, hz], by rw [hr]; exact sem_nil reg⟩
+  | deriv v t =>
+      intro _ r h
+      rw [traverse_deriv] at h
+      obtain ⟨qv, hv, h⟩ := (bind_ok _ _ _).mp h
+      obtain ⟨qt, ht, h⟩ := (bind_ok _ _ _).mp h
+      obtain ⟨m, _, h⟩ := (bind_ok _ _ _).mp h
+      cases (pure_ok _ _).mp h
+      obtain ⟨vi, hvi, hu⟩ := varQ_ok Γ v qv hv
+      obtain ⟨ti, hti, hw⟩ := varQ_ok Γ t qt ht
+      refine ⟨Spec.div (sem reg vi.unit) (sem reg ti.unit), by simp [specUnit, hvi, hti], ?_⟩
+      show sem reg (divC qv.2 qt.2) ≃₂ _
+      rw [hu, hw]; exact sem_divC reg _ _
+  | ite c t el _ iht ihe =>
+      intro hs r h
+      simp only [SimpleExps, Bool.and_eq_true] at hs
+      rw [traverse_ite] at h
+      obtain ⟨qt, ht, h⟩ := (bind_ok _ _ _).mp h
+      obtain ⟨st, hst, et⟩ := iht hs.1 qt ht
+      by_cases hu : el = .undef
+      · simp only [hu, if_true] at h
+        cases (pure_ok _ _).mp h
+        exact ⟨st, by simp [specUnit, hu, hst], et⟩
+      · simp only [hu, if_false] at h
+        obtain ⟨qe, he, h⟩ := (bind_ok _ _ _).mp h
+        obtain ⟨se, hse, ee⟩ := ihe hs.2 qe he
+        by_cases hsame : sameUnits reg qt.2 qe.2 = true
+        · simp only [hsame, if_true] at h
+          cases (pure_ok _ _).mp h
+          have hab : st ≃₂ se := et.symm.trans (((sameUnits_iff reg _ _).mp hsame).trans ee)
+          exact ⟨st, by simp [specUnit, hu, hst, hse, (same_iff st se).mpr hab], et⟩
+        · simp only [hsame, if_false] at h; cases h
+  | pow b x ihb ihx =>
+      intro hs r h
+      simp only [SimpleExps, Bool.and_eq_true] at hs
+      rw [traverse_pow] at h
+      obtain ⟨qb, hb, h⟩ := (bind_ok _ _ _).mp h
+      obtain ⟨qx, hx, h⟩ := (bind_ok _ _ _).mp h
+      obtain ⟨sb, hsb, eb⟩ := ihb hs.1 qb hb
+      obtain ⟨sx, hsx, ex⟩ := ihx (simpleExps_of_numProd x hs.2) qx hx
+      obtain ⟨q, f, hx', hc⟩ := numProd_traverse reg Γ x hs.2
+      rw [hx'] at hx; cases hx
+      have hone : isOne sx = true := (isOne_iff sx).mpr (ex.symm.trans (sem_nil reg))
+      refine ⟨Spec.pow q sb, by simp [specUnit, hsb, hsx, hone, hc], ?_⟩
+      simp only [powStep, ne_eq, not_true_eq_false, if_false, M.isNumber, Bool.not_true, Bool.false_eq_true] at h
+      obtain ⟨m, _, h⟩ := (bind_ok _ _ _).mp h
+      by_cases hub : qb.2 = []
+      · simp only [hub, if_true] at h; cases h
+        rw [hub] at eb
+        exact (sem_nil reg).trans ((pow_one q).symm.trans (pow_congr q ((sem_nil reg).symm.trans eb)))
+      · simp only [hub, if_false] at h; cases h
+        exact (sem_powC reg _ q).trans (pow_congr q eb)
+
+/-- the same in the canonical forms the correspondence check compares: the SI scale (`scaleOf`) and the dimension
+    (`dimsOf`) of the returned unit are exactly those of the unit the rules assign -/
+theorem infer_sound_scale_dims (reg : Registry) (Γ : VarEnv) (e : E) (hs : SimpleExps e = true) (r : M × Container)
+    (h : traverse reg Γ e = .ok r) :
+    ∃ su, specUnit reg Γ e = some su ∧ scaleOf reg r.2 = norm su.1 ∧ rootOf reg r.2 = norm su.2 ∧
+      dimsOf reg r.2 = norm (dimsOfRoot reg su.2) := by
+  obtain ⟨su, hsu, heq⟩ := infer_sound reg Γ e hs r h
+  refine ⟨su, hsu, norm_eq_of_equiv heq.1, norm_eq_of_equiv heq.2, ?_⟩
+  exact norm_eq_of_equiv (dimsOfRoot_congr reg ((norm_equiv _).trans heq.2))
+
+/-! ## 3. consistency: `specUnit` decides the typing relation `HasUnit` -/
+
+/-- whatever `specUnit` computes is derivable by the rules -/
+theorem specUnit_hasUnit (reg : Registry) (Γ : VarEnv) (e : E) :
+    ∀ su, specUnit reg Γ e = some su → HasUnit reg Γ e su := by
+  induction e with
+  | qty v u => intro su h; simp only [specUnit, Option.some.injEq] at h; subst h; exact .qty v u
+  | cf s u => intro su h; simp only [specUnit, Option.some.injEq] at h; subst h; exact .cf s u
+  | var i =>
+      intro su h
+      cases hv : Γ[i]? with
+      | none => simp [specUnit, hv] at h
+      | some vi => simp only [specUnit, hv, Option.some.injEq] at h; subst h; exact .var i vi hv
+  | int n => intro su h; simp only [specUnit, Option.some.injEq] at h; subst h; exact .int n
+  | rat q => intro su h; simp only [specUnit, Option.some.injEq] at h; subst h; exact .rat q
+  | flt q => intro su h; simp only [specUnit, Option.some.injEq] at h; subst h; exact .flt q
+  | pi => intro su h; simp only [specUnit, Option.some.injEq] at h; subst h; exact .pi
+  | e => intro su h; simp only [specUnit, Option.some.injEq] at h; subst h; exact .e
+  | oo => intro su h; simp only [specUnit, Option.some.injEq] at h; subst h; exact .oo
+  | nan => intro su h; simp only [specUnit, Option.some.injEq] at h; subst h; exact .nan
+  | mul a b iha ihb =>
+      intro su h
+      cases ha : specUnit reg Γ a <;> cases hb : specUnit reg Γ b <;> simp [specUnit, ha, hb] at h
+      subst h; exact .mul (iha _ ha) (ihb _ hb)
+  | add a b iha ihb =>
+      intro su h
+      cases ha : specUnit reg Γ a <;> cases hb : specUnit reg Γ b <;> simp [specUnit, ha, hb] at h
+      obtain ⟨hs, rfl⟩ := h
+      exact .add (iha _ ha) (ihb _ hb) ((same_iff _ _).mp hs)
+  | pow b x ihb ihx =>
+      intro su h
+      cases hb : specUnit reg Γ b <;> cases hx : specUnit reg Γ x <;> simp [specUnit, hb, hx] at h
+      rename_i sb sx
+      obtain ⟨h1, h⟩ := h
+      have hsx := (isOne_iff sx).mp h1
+      cases hc : constVal x with
+      | some q =>
+          simp only [hc, Option.some.injEq] at h; subst h
+          exact .powNum (ihb _ hb) (ihx _ hx) hsx hc
+      | none =>
+          simp only [hc, Option.ite_none_right_eq_some, Option.some.injEq] at h
+          obtain ⟨h2, rfl⟩ := h
+          exact .powOne (ihb _ hb) (ihx _ hx) hsx ((isOne_iff sb).mp h2) hc
+  | ite c t el _ iht ihe =>
+      intro su h
+      by_cases hu : el = .undef
+      · subst hu
+        simp only [specUnit, if_true] at h
+        exact .iteLast (iht _ h)
+      · cases ht : specUnit reg Γ t <;> cases he : specUnit reg Γ el <;> simp [specUnit, hu, ht, he] at h
+        obtain ⟨hs, rfl⟩ := h
+        exact .ite hu (iht _ ht) (ihe _ he) ((same_iff _ _).mp hs)
+  | abs a iha => intro su h; simp only [specUnit] at h; exact .abs (iha _ h)
+  | floor a iha => intro su h; simp only [specUnit] at h; exact .floor (iha _ h)
+  | ceil a iha => intro su h; simp only [specUnit] at h; exact .ceil (iha _ h)
+  | fn1 f a iha =>
+      intro su h
+      cases ha : specUnit reg Γ a <;> simp [specUnit, ha] at h
+      obtain ⟨hz, rfl⟩ := h
+      exact .fn1 (iha _ ha) ((isZero_iff _).mp hz)
+  | deriv v t =>
+      intro su h
+      cases hv : Γ[v]? <;> cases ht : Γ[t]? <;> simp [specUnit, hv, ht] at h
+      subst h; exact .deriv v t _ _ hv ht
+  | _ => intro su h; simp [specUnit] at h
+
+/-- the rules determine the unit up to meaning, and `specUnit` finds it: `HasUnit` is not weaker than `specUnit` -/
+theorem hasUnit_specUnit (reg : Registry) (Γ : VarEnv) (e : E) (su : SUnit) (h : HasUnit reg Γ e su) :
+    ∃ su', specUnit reg Γ e = some su' ∧ su' ≃₂ su := by
+  induction h with
+  | qty v u => exact ⟨_, rfl, Equiv₂.refl _⟩
+  | cf s u => exact ⟨_, rfl, Equiv₂.refl _⟩
+  | var i vi hv => exact ⟨_, by simp [specUnit, hv], Equiv₂.refl _⟩
+  | int n => exact ⟨_, rfl, Equiv₂.refl _⟩
+  | rat q => exact ⟨_, rfl, Equiv₂.refl _⟩
+  | flt q => exact ⟨_, rfl, Equiv₂.refl _⟩
+  | pi => exact ⟨_, rfl, Equiv₂.refl _⟩
+  | e => exact ⟨_, rfl, Equiv₂.refl _⟩
+  | oo => exact ⟨_, rfl, Equiv₂.refl _⟩
+  | nan => exact ⟨_, rfl, Equiv₂.refl _⟩
+  | mul _ _ iha ihb =>
+      obtain ⟨x', hx, ex⟩ := iha
+      obtain ⟨y', hy, ey⟩ := ihb
+      exact ⟨Spec.mul x' y', by simp [specUnit, hx, hy], mul_congr ex ey⟩
+  | powNum _ _ hone hc ihb ihx =>
+      obtain ⟨sb', hb, eb⟩ := ihb
+      obtain ⟨sx', hx, ex⟩ := ihx
+      have : isOne sx' = true := (isOne_iff _).mpr (ex.trans hone)
+      exact ⟨_, by simp [specUnit, hb, hx, this, hc], pow_congr _ eb⟩
+  | powOne _ _ hone hbone hc ihb ihx =>
+      obtain ⟨sb', hb, eb⟩ := ihb
+      obtain ⟨sx', hx, ex⟩ := ihx
+      have h1 : isOne sx' = true := (isOne_iff _).mpr (ex.trans hone)
+      have h2 : isOne sb' = true := (isOne_iff _).mpr (eb.trans hbone)
+      exact ⟨Spec.one, by simp [specUnit, hb, hx, h1, h2, hc], Equiv₂.refl _⟩
+  | add _ _ hxy iha ihb =>
+      obtain ⟨x', hx, ex⟩ := iha
+      obtain ⟨y', hy, ey⟩ := ihb
+      have : Spec.same x' y' = true := (same_iff _ _).mpr (ex.trans (hxy.trans ey.symm))
+      exact ⟨x', by simp [specUnit, hx, hy, this], ex⟩
+  | iteLast _ iht =>
+      obtain ⟨x', hx, ex⟩ := iht
+      exact ⟨x', by simp [specUnit, hx], ex⟩
+  | ite hu _ _ hxy iht ihe =>
+      obtain ⟨x', hx, ex⟩ := iht
+      obtain ⟨y', hy, ey⟩ := ihe
+      have : Spec.same x' y' = true := (same_iff _ _).mpr (ex.trans (hxy.trans ey.symm))
+      exact ⟨x', by simp [specUnit, hu, hx, hy, this], ex⟩
+  | abs _ ih => obtain ⟨x', hx, ex⟩ := ih; exact ⟨x', by simp [specUnit, hx], ex⟩
+  | floor _ ih => obtain ⟨x', hx, ex⟩ := ih; exact ⟨x', by simp [specUnit, hx], ex⟩
+  | ceil _ ih => obtain ⟨x', hx, ex⟩ := ih; exact ⟨x', by simp [specUnit, hx], ex⟩
+  | fn1 _ hz ih =>
+      obtain ⟨x', hx, ex⟩ := ih
+      have : dimZero reg x' = true := by
+        rw [dimZero_congr reg ex]; exact (isZero_iff _).mpr hz
+      exact ⟨Spec.one, by simp [specUnit, hx, this], Equiv₂.refl _⟩
+  | deriv v t vi ti hv ht => exact ⟨_, by simp [specUnit, hv, ht], Equiv₂.refl _⟩
+
+/-- the unit of a consistent expression is unique up to meaning -/
+theorem hasUnit_unique (reg : Registry) (Γ : VarEnv) (e : E) (s₁ s₂ : SUnit)
+    (h₁ : HasUnit reg Γ e s₁) (h₂ : HasUnit reg Γ e s₂) : s₁ ≃₂ s₂ := by
+  obtain ⟨a, ha, ea⟩ := hasUnit_specUnit reg Γ e s₁ h₁
+  obtain ⟨b, hb, eb⟩ := hasUnit_specUnit reg Γ e s₂ h₂
+  rw [ha] at hb; cases hb
+  exact ea.symm.trans eb
+
+/-- `infer_consistent`: a returned unit certifies that the expression is consistent under the CellML rules — there is a
+    derivation in which every sum's operands and every piecewise's pieces have the same unit, every function
+    argument has dimension zero, every exponent is dimensionless — and the returned container denotes the derived
+    unit (which is unique, `hasUnit_unique`). -/
+theorem infer_consistent (reg : Registry) (Γ : VarEnv) (e : E) (hs : SimpleExps e = true) (r : M × Container)
+    (h : traverse reg Γ e = .ok r) : ∃ su, HasUnit reg Γ e su ∧ sem reg r.2 ≃₂ su := by
+  obtain ⟨su, hsu, eq⟩ := infer_sound reg Γ e hs r h
+  exact ⟨su, specUnit_hasUnit reg Γ e su hsu, eq⟩
+
+/-- `infer_complete_err` (value part): an expression to which the rules assign no unit — a unit clash in a sum or
+    piecewise, a dimensional exponent or function argument, a boolean / relational / unsupported node where a value is
+    needed — is never given a unit: `traverse` ends in an error. -/
+theorem infer_complete_err (reg : Registry) (Γ : VarEnv) (e : E) (hs : SimpleExps e = true)
+    (hno : ∀ su, ¬ HasUnit reg Γ e su) : ∃ err, traverse reg Γ e = .error err := by
+  cases h : traverse reg Γ e with
+  | error err => exact ⟨err, rfl⟩
+  | ok r =>
+      obtain ⟨su, hsu, _⟩ := infer_consistent reg Γ e hs r h
+      exact absurd hsu (hno su)
+
+theorem infer_complete_err_spec (reg : Registry) (Γ : VarEnv) (e : E) (hs : SimpleExps e = true)
+    (hno : specUnit reg Γ e = none) : ∃ err, traverse reg Γ e = .error err := by
+  apply infer_complete_err reg Γ e hs
+  intro su hsu
+  obtain ⟨su', h', _⟩ := hasUnit_specUnit reg Γ e su hsu
+  rw [hno] at h'; cases h'
+
+/-! ## 4. errors -/
+
+/-- What an error of `traverse` on `e` can be: a `UnitError` subclass; or a Python exception of a magnitude operation
+    that occurs in `e` (`pyErrors e` lists them per node: `ZeroDivisionError` for `**` and derivatives, `OverflowError`
+    for `exp`, `TypeError` for floor / ceiling); or the model's `unsupported` for a node of `e` outside the exactly
+    modelled fragment (`outside Γ e`: infinity, nan, unknown variable, powers). -/
+def ErrClass (Γ : VarEnv) (e : E) (err : UnitErr) : Prop :=
+  (∀ w, err = .otherException w → w ∈ pyErrors e) ∧ (∀ w, err = .unsupported w → outside Γ e = true)
+
+theorem ErrClass.of_unitError {Γ : VarEnv} {e : E} {err : UnitErr} (h : isUnitError err = true) :
+    ErrClass Γ e err := by
+  constructor <;> intro w hw <;> subst hw <;> simp [isUnitError] at h
+
+theorem ErrClass.mono {Γ : VarEnv} {a e : E} {err : UnitErr} (h : ErrClass Γ a err)
+    (hp : ∀ w, w ∈ pyErrors a → w ∈ pyErrors e) (ho : outside Γ a = true → outside Γ e = true) :
+    ErrClass Γ e err :=
+  ⟨fun w hw => hp w (h.1 w hw), fun w hw => ho (h.2 w hw)⟩
+
+/-- sub-expression step of the induction: errors of an operand are errors the parent may show -/
+macro "from_operand " ih:term : tactic =>
+  `(tactic| exact ErrClass.mono $ih (by intro w hw; simp [pyErrors, hw]) (by intro ho; simp [outside, ho]))
+
+/-- `infer_error_class`: every error of `traverse` is classified by `ErrClass` -/
+theorem infer_error_class (reg : Registry) (Γ : VarEnv) (e : E) :
+    ∀ err, traverse reg Γ e = .error err → ErrClass Γ e err := by
+  induction e with
+  | qty v u => intro err h; rw [traverse_qty] at h; cases h
+  | cf s u => intro err h; rw [traverse_cf] at h; cases h
+  | int n => intro err h; rw [traverse_int] at h; cases h
+  | rat q => intro err h; rw [traverse_rat] at h; cases h
+  | flt q => intro err h; rw [traverse_flt] at h; cases h
+  | pi => intro err h; rw [traverse_pi] at h; cases h
+  | e => intro err h; rw [traverse_e] at h; cases h
+  | oo => intro err h; rw [traverse_oo] at h; cases h; exact ⟨fun w hw => (by cases hw), fun w _ => rfl⟩
+  | nan => intro err h; rw [traverse_nan] at h; cases h; exact ⟨fun w hw => (by cases hw), fun w _ => rfl⟩
+  | undef => intro err h; rw [traverse_undef] at h; cases h; exact .of_unitError rfl
+  | tt => intro err h; rw [traverse_tt] at h; cases h; exact .of_unitError rfl
+  | ff => intro err h; rw [traverse_ff] at h; cases h; exact .of_unitError rfl
+  | other n => intro err h; rw [traverse_other] at h; cases h; exact .of_unitError rfl
+  | var i =>
+      intro err h; rw [traverse_var] at h
+      obtain ⟨hn, rfl⟩ := varQ_error Γ i err h
+      exact ⟨fun w hw => (by cases hw), fun w _ => by simp [outside, hn]⟩
+  | mul a b iha ihb =>
+      intro err h; rw [traverse_mul] at h
+      rcases (bind_error _ _ _).mp h with h | ⟨qa, _, h⟩
+      · from_operand (iha err h)
+      · rcases (bind_error _ _ _).mp h with h | ⟨qb, _, h⟩
+        · from_operand (ihb err h)
+        · cases h
+  | add a b iha ihb =>
+      intro err h
+      rcases traverse_add_error reg Γ a b err h with h | h | rfl
+      · from_operand (iha err h)
+      · from_operand (ihb err h)
+      · exact .of_unitError rfl
+  | rel rl a b iha ihb =>
+      intro err h; rw [traverse_rel] at h
+      rcases (bind_error _ _ _).mp h with h | ⟨qa, _, h⟩
+      · from_operand (iha err h)
+      · rcases (bind_error _ _ _).mp h with h | ⟨qb, _, h⟩
+        · from_operand (ihb err h)
+        · cases h; exact .of_unitError rfl
+  | and a b iha ihb =>
+      intro err h; rw [traverse_and] at h
+      rcases (bind_error _ _ _).mp h with h | ⟨qa, _, h⟩
+      · from_operand (iha err h)
+      · rcases (bind_error _ _ _).mp h with h | ⟨qb, _, h⟩
+        · from_operand (ihb err h)
+        · cases h; exact .of_unitError rfl
+  | or a b iha ihb =>
+      intro err h; rw [traverse_or] at h
+      rcases (bind_error _ _ _).mp h with h | ⟨qa, _, h⟩
+      · from_operand (iha err h)
+      · rcases (bind_error _ _ _).mp h with h | ⟨qb, _, h⟩
+        · from_operand (ihb err h)
+        · cases h; exact .of_unitError rfl
+  | not a iha =>
+      intro err h; rw [traverse_not] at h
+      rcases (bind_error _ _ _).mp h with h | ⟨qa, _, h⟩
+      · from_operand (iha err h)
+      · cases h; exact .of_unitError rfl
+  | abs a iha =>
+      intro err h; rw [traverse_abs] at h
+      rcases (bind_error _ _ _).mp h with h | ⟨qa, _, h⟩
+      · from_operand (iha err h)
+      · cases h
+  | floor a iha =>
+      intro err h; rw [traverse_floor] at h
+      rcases (bind_error _ _ _).mp h with h | ⟨qa, _, h⟩
+      · from_operand (iha err h)
+      · rcases (bind_error _ _ _).mp h with h | ⟨m, _, h⟩
+        · cases floorM_error _ _ _ h
+          exact ⟨fun w hw => (by cases hw; simp [pyErrors]), fun w hw => by cases hw⟩
+        · cases h
+  | ceil a iha =>
+      intro err h; rw [traverse_ceil] at h
+      rcases (bind_error _ _ _).mp h with h | ⟨qa, _, h⟩
+      · from_operand (iha err h)
+      · rcases (bind_error _ _ _).mp h with h | ⟨m, _, h⟩
+        · cases floorM_error _ _ _ h
+          exact ⟨fun w hw => (by cases hw; simp [pyErrors]), fun w hw => by cases hw⟩
+        · cases h
+  | fn1 f a iha =>
+      intro err h; rw [traverse_fn1] at h
+      rcases (bind_error _ _ _).mp h with h | ⟨qa, _, h⟩
+      · from_operand (iha err h)
+      · rcases fn1Step_error reg f qa err h with rfl | rfl | ⟨rfl, rfl⟩
+        · exact .of_unitError rfl
+        · exact .of_unitError rfl
+        · exact ⟨fun w hw => (by cases hw; simp [pyErrors]), fun w hw => by cases hw⟩
+  | fnN f a b iha ihb =>
+      intro err h
+      rcases traverse_fnN_error reg Γ f a b err h with rfl | rfl | h | h
+      · exact .of_unitError rfl
+      · exact .of_unitError rfl
+      · from_operand (iha err h)
+      · from_operand (ihb err h)
+  | deriv v t =>
+      intro err h; rw [traverse_deriv] at h
+      rcases (bind_error _ _ _).mp h with h | ⟨qv, _, h⟩
+      · obtain ⟨hn, rfl⟩ := varQ_error Γ v err h
+        exact ⟨fun w hw => (by cases hw), fun w _ => by simp [outside, hn]⟩
+      · rcases (bind_error _ _ _).mp h with h | ⟨qt, _, h⟩
+        · obtain ⟨hn, rfl⟩ := varQ_error Γ t err h
+          exact ⟨fun w hw => (by cases hw), fun w _ => by simp [outside, hn]⟩
+        · rcases (bind_error _ _ _).mp h with h | ⟨m, _, h⟩
+          · cases divM_error _ _ _ h
+            exact ⟨fun w hw => (by cases hw; simp [pyErrors]), fun w hw => by cases hw⟩
+          · cases h
+  | ite c t el _ iht ihe =>
+      intro err h; rw [traverse_ite] at h
+      rcases (bind_error _ _ _).mp h with h | ⟨qt, _, h⟩
+      · from_operand (iht err h)
+      · by_cases hu : el = .undef
+        · simp only [hu, if_true] at h; cases h
+        · simp only [hu, if_false] at h
+          rcases (bind_error _ _ _).mp h with h | ⟨qe, _, h⟩
+          · from_operand (ihe err h)
+          · split at h
+            · cases h
+            · cases h; exact .of_unitError rfl
+  | pow b x ihb ihx =>
+      intro err h; rw [traverse_pow] at h
+      rcases (bind_error _ _ _).mp h with h | ⟨qb, _, h⟩
+      · from_operand (ihb err h)
+      · rcases (bind_error _ _ _).mp h with h | ⟨qx, _, h⟩
+        · from_operand (ihx err h)
+        · rcases powStep_error qb qx err h with h | rfl | ⟨w, rfl⟩
+          · exact .of_unitError h
+          · exact ⟨fun w hw => (by cases hw; simp [pyErrors]), fun w hw => by cases hw⟩
+          · exact ⟨fun w hw => (by cases hw), fun w _ => rfl⟩
+
+/-- the three ways an evaluation can fail -/
+theorem infer_error_trichotomy (reg : Registry) (Γ : VarEnv) (e : E) (err : UnitErr)
+    (h : traverse reg Γ e = .error err) :
+    isUnitError err = true ∨ (∃ w, err = .otherException w ∧ w ∈ pyErrors e) ∨
+      (∃ w, err = .unsupported w ∧ outside Γ e = true) := by
+  have hc := infer_error_class reg Γ e err h
+  cases err with
+  | otherException w => exact Or.inr (Or.inl ⟨w, rfl, hc.1 w rfl⟩)
+  | unsupported w => exact Or.inr (Or.inr ⟨w, rfl, hc.2 w rfl⟩)
+  | _ => exact Or.inl rfl
+
+/-- only three Python exception types can escape, each from the magnitude operation named in `pyErrors` -/
+theorem pyErrors_subset (e : E) : ∀ w, w ∈ pyErrors e → w ∈ ["ZeroDivisionError", "OverflowError", "TypeError"] := by
+  induction e with
+  | pow b x ihb ihx =>
+      intro w hw; simp only [pyErrors, List.mem_cons, List.mem_append] at hw
+      rcases hw with rfl | hw | hw
+      · simp
+      · exact ihb w hw
+      · exact ihx w hw
+  | floor a ih =>
+      intro w hw; simp only [pyErrors, List.mem_cons] at hw
+      rcases hw with rfl | hw
+      · simp
+      · exact ih w hw
+  | ceil a ih =>
+      intro w hw; simp only [pyErrors, List.mem_cons] at hw
+      rcases hw with rfl | hw
+      · simp
+      · exact ih w hw
+  | fn1 f a ih =>
+      intro w hw; simp only [pyErrors, List.mem_append] at hw
+      rcases hw with hw | hw
+      · split at hw
+        · simp only [List.mem_cons, List.not_mem_nil, or_false] at hw; subst hw; simp
+        · cases hw
+      · exact ih w hw
+  | deriv v t => intro w hw; simp only [pyErrors, List.mem_cons, List.not_mem_nil, or_false] at hw; subst hw; simp
+  | add a b iha ihb | mul a b iha ihb | fnN f a b iha ihb | rel rl a b iha ihb | and a b iha ihb | or a b iha ihb =>
+      intro w hw; simp only [pyErrors, List.mem_append] at hw
+      rcases hw with hw | hw
+      · exact iha w hw
+      · exact ihb w hw
+  | ite c t el _ iht ihe =>
+      intro w hw; simp only [pyErrors, List.mem_append] at hw
+      rcases hw with hw | hw
+      · exact iht w hw
+      · exact ihe w hw
+  | abs a ih | not a ih => intro w hw; simp only [pyErrors] at hw; exact ih w hw
+  | _ => intro w hw; simp [pyErrors] at hw
+
+/-- `infer_unit_errors_only_partial`: an expression without powers, floor / ceiling, `exp` and derivatives (no operation
+    on magnitudes can fail), without infinity / nan and whose variables are all declared, is either given a unit or
+    rejected with a `UnitError` subclass — never another exception.
+    PARTIAL with respect to the property text ("never another exception type", for every expression): the hypothesis
+    `pyErrors e = []` excludes exactly the known findings `non-UnitError:OverflowError / ZeroDivisionError / TypeError`
+    (`overflow_reachable`, `zero_division_reachable`, `type_error_reachable` below show they are real);
+    `infer_error_trichotomy` is the unconditional statement, which names the escaping exception and its origin. -/
+theorem infer_unit_errors_only_partial (reg : Registry) (Γ : VarEnv) (e : E) (hp : pyErrors e = [])
+    (ho : outside Γ e = false) : (∃ r, traverse reg Γ e = .ok r) ∨
+      (∃ err, traverse reg Γ e = .error err ∧ isUnitError err = true) := by
+  cases h : traverse reg Γ e with
+  | ok r => exact Or.inl ⟨r, rfl⟩
+  | error err =>
+      refine Or.inr ⟨err, rfl, ?_⟩
+      rcases infer_error_trichotomy reg Γ e err h with hu | ⟨w, _, hw⟩ | ⟨w, _, hw⟩
+      · exact hu
+      · rw [hp] at hw; cases hw
+      · rw [ho] at hw; cases hw
+
+/-! ## 5. what is always rejected -/
+
+/-- terms that have no unit: relations, boolean terms, two-argument functions, an empty piecewise, anything unknown -/
+def noUnitHead : E → Bool
+  | .other _ | .rel _ _ _ | .and _ _ | .or _ _ | .not _ | .tt | .ff | .fnN _ _ _ | .undef => true
+  | _ => false
+
+/-- `infer_rejects`: such a term is never given a unit, whatever its operands are -/
+theorem infer_rejects (reg : Registry) (Γ : VarEnv) (e : E) (h : noUnitHead e = true) :
+    ∃ err, traverse reg Γ e = .error err := by
+  cases hr : traverse reg Γ e with
+  | error err => exact ⟨err, rfl⟩
+  | ok r =>
+      exfalso
+      cases e <;> simp only [noUnitHead, Bool.false_eq_true] at h
+      case other n => rw [traverse_other] at hr; cases hr
+      case tt => rw [traverse_tt] at hr; cases hr
+      case ff => rw [traverse_ff] at hr; cases hr
+      case undef => rw [traverse_undef] at hr; cases hr
+      case fnN f a b => obtain ⟨err, he⟩ := traverse_fnN reg Γ f a b; rw [he] at hr; cases hr
+      case not a =>
+        rw [traverse_not] at hr
+        obtain ⟨_, _, hr⟩ := (bind_ok _ _ _).mp hr
+        cases hr
+      all_goals
+        first
+        | rw [traverse_rel] at hr
+        | rw [traverse_and] at hr
+        | rw [traverse_or] at hr
+        obtain ⟨_, _, hr⟩ := (bind_ok _ _ _).mp hr
+        obtain ⟨_, _, hr⟩ := (bind_ok _ _ _).mp hr
+        cases hr
+
+/-- with acceptable operands a relation / boolean term is rejected as `BooleanUnitsError` -/
+theorem infer_rejects_relation (reg : Registry) (Γ : VarEnv) (rl : Rel) (a b : E) (ra rb : M × Container)
+    (ha : traverse reg Γ a = .ok ra) (hb : traverse reg Γ b = .ok rb) :
+    traverse reg Γ (.rel rl a b) = .error .boolean := by
+  rw [traverse_rel, ha, hb]; rfl
+
+/-- `infer_rejects_sum`: two accepted operands whose units differ in meaning (scale or root units) cannot be added:
+    `InputArgumentsInvalidUnitsError` -/
+theorem infer_rejects_sum (reg : Registry) (Γ : VarEnv) (a b : E) (ra rb : M × Container)
+    (ha : traverse reg Γ a = .ok ra) (hb : traverse reg Γ b = .ok rb) (hne : ¬ sem reg ra.2 ≃₂ sem reg rb.2) :
+    traverse reg Γ (.add a b) = .error .argsInvalidUnits := by
+  apply traverse_add_mismatch reg Γ a b ra rb ha hb
+  cases hs : sameUnits reg ra.2 rb.2 with
+  | false => rfl
+  | true => exact absurd ((sameUnits_iff reg _ _).mp hs) hne
+
+/-- the same from the specification's side: operands to which the rules give different units -/
+theorem infer_rejects_sum_spec (reg : Registry) (Γ : VarEnv) (a b : E) (sa sb : SUnit)
+    (hsa : SimpleExps a = true) (hsb : SimpleExps b = true)
+    (ha : specUnit reg Γ a = some sa) (hb : specUnit reg Γ b = some sb) (hne : ¬ sa ≃₂ sb) :
+    ∃ err, traverse reg Γ (.add a b) = .error err := by
+  apply infer_complete_err_spec reg Γ (.add a b) (by simp [SimpleExps, hsa, hsb])
+  have : Spec.same sa sb = false := by
+    cases hs : Spec.same sa sb with
+    | false => rfl
+    | true => exact absurd ((same_iff _ _).mp hs) hne
+  simp [specUnit, ha, hb, this]
+
+/-! ## 6. the known defects, as theorems about the model (findings/C04.json) -/
+
+/-- `wrong-unit:composite-exponent`: why `infer_sound` needs `SimpleExps`. For `(0.5 second)**(_2 + _3)` the code
+    reads the exponent as its first operand, 2, and reports `second**2`; the rules give `second**5`. -/
+def compositeExp : E := .pow (.qty (1/2) [("second", 1)]) (.add (.qty 2 []) (.qty 3 []))
+
+theorem composite_exponent_counterexample :
+    traverse builtinRegistry [] compositeExp = .ok (.num (1/4) true, [("second", 2)]) ∧
+    (specUnit builtinRegistry [] compositeExp).map (fun su => (norm su.1, norm su.2)) = some ([], [("second", 5)]) ∧
+    SimpleExps compositeExp = false ∧
+    (∀ su, specUnit builtinRegistry [] compositeExp = some su →
+      Spec.same (sem builtinRegistry [("second", 2)]) su = false) := by
+  refine ⟨by decide +kernel, by decide +kernel, by decide +kernel, ?_⟩
+  intro su h
+  have : (specUnit builtinRegistry [] compositeExp).map
+      (fun su => Spec.same (sem builtinRegistry [("second", 2)]) su) = some false := by decide +kernel
+  rw [h] at this
+  simpa using this
+
+/-- so the returned unit is NOT the unit of the expression: soundness fails without the hypothesis -/
+theorem infer_sound_fails_for_composite_exponent :
+    ¬ (∀ r, traverse builtinRegistry [] compositeExp = .ok r →
+        ∃ su, specUnit builtinRegistry [] compositeExp = some su ∧ sem builtinRegistry r.2 ≃₂ su) := by
+  intro hall
+  obtain ⟨h1, _, _, h4⟩ := composite_exponent_counterexample
+  obtain ⟨su, hsu, heq⟩ := hall _ h1
+  have := h4 su hsu
+  rw [(same_iff _ _).mpr heq] at this
+  cases this
+
+/-- `non-UnitError:OverflowError` -/
+theorem overflow_reachable :
+    traverse builtinRegistry [] (.fn1 "exp" (.qty 1000 [])) = .error (.otherException "OverflowError") := by
+  decide +kernel
+
+/-- `non-UnitError:ZeroDivisionError`: `floor(_0.5)**-1` -/
+theorem zero_division_reachable :
+    traverse builtinRegistry [] (.pow (.floor (.qty (1/2) [])) (.int (-1))) =
+      .error (.otherException "ZeroDivisionError") := by
+  decide +kernel
+
+/-- `non-UnitError:TypeError`: `floor((-2 mole)**(1/2))` -/
+theorem type_error_reachable :
+    traverse builtinRegistry [] (.floor (.pow (.qty (-2) [("mole", 1)]) (.rat (1/2)))) =
+      .error (.otherException "TypeError") := by
+  decide +kernel
+
+/-! ## 7. non-vacuity: concrete expressions over the built-in registry -/
+
+section Examples
+/-- a potential with an initial value, a time, a potential declared as joule / coulomb -/
+def Γ₀ : VarEnv := [{ unit := [("volt", 1)], init := some (-80) }, { unit := [("second", 1)] },
+                    { unit := [("joule", 1), ("coulomb", -1)] }]
+
+-- volt + joule/coulomb: different containers, same meaning: accepted, the first operand's unit is returned
+example : traverse builtinRegistry [] (.add (.qty 1 [("volt", 1)]) (.qty 2 [("joule", 1), ("coulomb", -1)])) =
+    .ok (.num 1 true, [("volt", 1)]) := by decide +kernel
+example : SimpleExps (.add (.qty 1 [("volt", 1)]) (.qty 2 [("joule", 1), ("coulomb", -1)])) = true := by decide
+-- … and the specification agrees (this is an instance of `infer_sound`)
+example : (specUnit builtinRegistry [] (.add (.qty 1 [("volt", 1)]) (.qty 2 [("joule", 1), ("coulomb", -1)]))).map
+    (fun su => Spec.same su (sem builtinRegistry [("volt", 1)])) = some true := by decide +kernel
+-- volt + second: rejected, by the code and by the rules
+example : traverse builtinRegistry [] (.add (.qty 1 [("volt", 1)]) (.qty 1 [("second", 1)])) =
+    .error .argsInvalidUnits := by decide +kernel
+example : specUnit builtinRegistry [] (.add (.qty 1 [("volt", 1)]) (.qty 1 [("second", 1)])) = none := by
+  decide +kernel
+-- same dimension, different scale (litre vs cubic metre): rejected
+example : traverse builtinRegistry [] (.add (.qty 1 [("liter", 1)]) (.qty 1 [("meter", 3)])) =
+    .error .argsInvalidUnits := by decide +kernel
+-- numeric powers, also negative and rational: (3 m)², (4 m²)^(1/2), (2 s)^(-1)
+example : traverse builtinRegistry [] (.pow (.qty 3 [("meter", 1)]) (.int 2)) =
+    .ok (.num 9 true, [("meter", 2)]) := by decide +kernel
+example : (traverse builtinRegistry [] (.pow (.qty 4 [("meter", 2)]) (.rat (1/2)))).map (·.2) =
+    .ok [("meter", 1)] := by decide +kernel
+example : (traverse builtinRegistry [] (.pow (.qty 2 [("second", 1)]) (.mul (.int (-1)) (.int 1)))).map (·.2) =
+    .ok [("second", -1)] := by decide +kernel
+example : SimpleExps (.pow (.qty 2 [("second", 1)]) (.mul (.int (-1)) (.int 1))) = true := by decide
+-- variables, derivative, piecewise, function of a dimensionless quotient
+example : (traverse builtinRegistry Γ₀ (.deriv 0 1)).map (·.2) = .ok [("second", -1), ("volt", 1)] := by
+  decide +kernel
+example : (traverse builtinRegistry Γ₀
+    (.ite (.rel .lt (.var 1) (.qty 1 [("second", 1)])) (.var 0) (.ite .tt (.var 2) .undef))).map (·.2) =
+    .ok [("volt", 1)] := by decide +kernel
+example : (traverse builtinRegistry Γ₀ (.fn1 "exp" (.mul (.var 0) (.pow (.var 2) (.int (-1)))))).map (·.2) =
+    .ok [] := by decide +kernel
+example : traverse builtinRegistry Γ₀ (.fn1 "exp" (.var 0)) = .error .mustBeDimensionless := by decide +kernel
+example : traverse builtinRegistry Γ₀ (.pow (.var 0) (.var 1)) = .error .mustBeDimensionless := by decide +kernel
+-- the hypotheses of `infer_unit_errors_only_partial` are satisfiable by a non-trivial expression
+example : pyErrors (.add (.mul (.var 0) (.fn1 "sin" (.qty 1 []))) (.abs (.var 2))) = [] ∧
+    outside Γ₀ (.add (.mul (.var 0) (.fn1 "sin" (.qty 1 []))) (.abs (.var 2))) = false := by decide
+-- relations, booleans, Max are rejected
+example : traverse builtinRegistry Γ₀ (.rel .lt (.var 0) (.var 2)) = .error .boolean := by decide +kernel
+example : traverse builtinRegistry Γ₀ (.fnN "Max" (.var 0) (.var 2)) = .error .deferredFn := by decide +kernel
+end Examples
+
 end Cellml.Props.C04
